@@ -6,7 +6,8 @@ def run(ctx):
     ctx.rules.append(
         "MC_ReaderApi (hdr configuration) enumerates sparse sheets x every sequence (<= 3 steps) of option "
         "changes and reads with header rows before / inside / in a gap of / after the data, 1048575, u32::MAX "
-        "and back to the default; each runs on xlsx, xlsb, xls and ods readers (native, auto-detected, fresh); "
+        "and back to the default; each runs on xlsx, xlsb, xls and ods readers (native, auto-detected, fresh; every "
+        "other xlsx workbook stores its rows in descending order); "
         "every returned range is a trace event on which Trace_ReaderApi evaluates the statement's predicate "
         "HeaderOK (first row, values at rows >= n, nothing from above, empty when nothing is left, no panic) and "
         "that the option only affects subsequent reads; non-trivial = an explicit header row is in force")
@@ -16,7 +17,7 @@ def run(ctx):
     if "REPLAY" not in r["tags"]:
         return
     trace = ctx.work + "/hdr_trace.ndjson"
-    ctx.replay("api", r["tags"]["REPLAY"], extra=["--trace", trace])
+    ctx.replay("api", r["tags"]["REPLAY"], extra=["--trace", trace, "--rowsdesc", 1])
     v = ctx.validate_trace("api", "Trace_ReaderApi", "Trace_ReaderApi.cfg", trace, timeout=ctx.pick(900, 6000), xmx=ctx.pick("6g", "24g"))
     if v["accepted"]:
         ctx.traces += 1
